@@ -252,9 +252,22 @@ def check_c01(chk, args):
     printers_binding(chk, vals)
 
 
+CALL_TYPES = {}     # type -> function(v) -> (name, args, [(kw, value)...]) for user types printed through pretty_call
+
+
 def model_term(v, sort):
-    """Value term for Printers.tla: PyTerm value term with the repr text of number leaves attached."""
+    """Value term for Printers.tla: PyTerm value term with the repr text of number leaves attached,
+    comment()/trailing_comment() wrappers as ['cm'|'tcm', text, term], registered user types as ['call', ...]."""
     t = type(v)
+    PPm = common.pp_module('prettyprinter.prettyprinter')
+    if t is PPm._CommentedValue:
+        return ['cm', pyterm.codes(v.comment), model_term(v.value, sort)]
+    if t is PPm._TrailingCommentedValue:
+        return ['tcm', pyterm.codes(v.comment), model_term(v.value, sort)]
+    if t in CALL_TYPES:
+        name, args, kws = CALL_TYPES[t](v)
+        return ['call', pyterm.codes(name), [model_term(a, sort) for a in args],
+                [[pyterm.codes(k), model_term(x, sort)] for k, x in kws]]
     if t is int:
         return ['int', str(v), pyterm.codes(int.__repr__(v))]
     if t is float:
@@ -265,14 +278,14 @@ def model_term(v, sort):
         keys = list(v.keys())
         if sort:
             try:
-                keys = sorted(keys)
+                keys = sorted(keys)      # unsortable keys: the fallback order depends on object ids
             except TypeError:
                 return ['dictany', []]
         return ['dict', [[model_term(k, sort), model_term(v[k], sort)] for k in keys]]
     return pyterm.value_term(v)
 
 
-def printers_binding(chk, vals):
+def printers_binding(chk, vals, msls=(1000,), name='printers', per_value=None):
     """spec -> code binding of the concrete pipeline model: Printers.tla + LayoutImpl.tla predict
     the exact text of pformat (DRIFT when they do not; values outside the model are skipped)."""
     q = chk.tier == 'quick'
@@ -281,11 +294,11 @@ def printers_binding(chk, vals):
     meta = {}
     pool = vals if len(vals) < (1500 if q else 20000) else rng.sample(vals, 1500 if q else 20000)
     for v in pool:
-        for _ in range(2 if q else 4):
+        for _ in range(per_value or (2 if q else 4)):
             w = rng.choice([1, 5, 10, 20, 30, 40, 60, 79, 120])
             cfg = {'width': w, 'ribbon_width': rng.choice([1, max(1, w // 2), w, 200]), 'indent': rng.choice([1, 2, 4, 8]),
                    'sort_dict_keys': rng.random() < 0.3, 'depth': rng.choice([None, None, None, 0, 1, 2]),
-                   'max_seq_len': 1000}
+                   'max_seq_len': rng.choice(msls)}
             try:
                 with warnings.catch_warnings():
                     warnings.simplefilter('ignore')
@@ -296,9 +309,9 @@ def printers_binding(chk, vals):
             cid = len(cases) + 1
             cases.append({'id': cid, 'val': model_term(v, cfg['sort_dict_keys']), 'indent': cfg['indent'], 'width': w,
                           'depth': -1 if cfg['depth'] is None else cfg['depth'], 'ribbon': cfg['ribbon_width'],
-                          'msl': 1000, 'text': pyterm.codes(out)})
+                          'msl': cfg['max_seq_len'], 'text': pyterm.codes(out)})
             meta[cid] = {'value': repr(v)[:200], 'config': cfg, 'output': out[:300]}
-    v, st = common.tlc_batch('PrintersTrace', CFG, cases, os.path.join(chk.workdir, 'printers'), tags=('MODEL', 'SKIP'),
+    v, st = common.tlc_batch('PrintersTrace', CFG, cases, os.path.join(chk.workdir, name), tags=('MODEL', 'SKIP'),
                              min_per_shard=200, heap='3g')
     chk.add_model(st)
     nm = ns = nd = 0
@@ -310,8 +323,8 @@ def printers_binding(chk, vals):
         else:
             nd += 1
             chk.drifted('Printers.tla + LayoutImpl.tla predict a different text for %r' % (meta[c['id']],))
-    chk.cov['printers_model'] = {'predicted_exactly': nm, 'outside_model': ns, 'drift': nd}
-    chk.stage('tlc.predict Printers+LayoutImpl', cases=len(cases), predicted_exactly=nm, outside_model=ns, drift=nd,
+    chk.cov[name + '_model'] = {'predicted_exactly': nm, 'outside_model': ns, 'drift': nd}
+    chk.stage('tlc.predict Printers+LayoutImpl (%s)' % name, cases=len(cases), predicted_exactly=nm, outside_model=ns, drift=nd,
               states=st['distinct'], wall=round(st['wall'], 1))
 
 
